@@ -470,6 +470,23 @@ def static_tables(s, ed, rnd, tmp):
                 msg = "row %d: %s" % (i, ("non-canonical keys %r (prefix %r)" % (badkeys[:3], prefix)) if badkeys else "values differ")
         if not msg and [tuple(x) for x in d.lattice_parmeters] != lat:
             msg = "lattice block: read %r" % (d.lattice_parmeters[:2],)
+        if not msg and t % 3 == 0:
+            # history: the object a read returned is edited in place by its owner (the symmetry filling of Calculator does exactly that), then the SAME unchanged
+            # file is read again -- through another spelling of its path as well: the second read must again be the tabulated data
+            try:
+                for i in range(nv):
+                    d.volumes[i] = type(d.volumes[i])(d.volumes[i].volume + 1.0, {k: v + 7.0 for k, v in d.volumes[i].static_elastic_modulus.items()})
+                d.lattice_parmeters.append((0.0, 0.0, 0.0))
+            except Exception:
+                pass
+            for spelled in (p, os.path.join(os.path.dirname(p), ".", os.path.basename(p))):
+                evals += 1
+                d2 = ed.read_elast_data(spelled)
+                ok = len(d2.volumes) == nv and [tuple(x) for x in d2.lattice_parmeters] == lat and all(
+                    d2.volumes[i].volume == vols[i] and dict(d2.volumes[i].static_elastic_modulus) == {c_(I, J): rows[i][k] for k, (I, J) in enumerate(cols)} for i in range(nv))
+                if not ok:
+                    msg = "second read of the unchanged file (after the first result was edited in place by its owner) is not the tabulated data"
+                    break
         if msg:
             fails.append({"witness_id": "static:%d:%s" % (t, prefix), "input": {"prefix": prefix, "nv": nv, "columns": cols[:6], "lattice": with_lat, "text": text[:300]},
                           "observed": msg, "expected": "vref, N, cell mass, volumes, components keyed by canonical key, lattice parameters exactly as tabulated"})
